@@ -2,4 +2,22 @@ NOTES = "Fix commits in /repo repair defects F1-F12 found in the design round (s
 NOT_APPLICABLE = {
  'C05': "analytic sub-pixel error bound over a continuum of blob parameters through exp sampling, float filtering and an iterated centroid: no exact executable model exists, so neither a theorem nor a correspondence is available with this technique (DESIGN.md §5); its discrete stages are C06-C10",
 }
-CHECKS = {}
+LINK_NOTE = ("Trusted: Coq kernel + vm_compute; harness (generators, float->exact scaling, pandas-level row comparison). Modelled, not verified: "
+             "cKDTree.query = all sources within range (cases with > 10 in range skipped and counted), float distance arithmetic = exact arithmetic on "
+             "lattice inputs, the 1e-7 admission slack, Python set iteration order (only breaks ties). All property theorems: Closed under the global context.")
+CHECKS = {
+ 'C01': dict(
+   text="Proof: Properties/C01.v proves for the executable step-machine model of Linker (any number of frames/particles, any memory, any predictor) that every "
+        "feature gets exactly one label, labels are distinct per frame, a label is fresh or continues a live source within range last seen <= memory+1 steps ago, "
+        "and that link's table adapter passes every row exactly once (missing frame numbers = empty steps). Correspondence: link / link_df_iter / link_iter on "
+        "generated tables (odd indices, shuffled rows, float frames, gaps) - labels replayed by the Coq monitor (proved sound, C02_monitor_sound) on frames rebuilt from the "
+        "returned table; returned rows and the caller's table compared at pandas level.",
+   note=LINK_NOTE + " Caller-table immutability and index/column preservation are established by correspondence only (values are immutable in the model)."),
+ 'C02': dict(
+   text="Proof: Properties/C02.v proves (all subnet sizes, cost patterns, histories) that the pruned recursive search returns a minimum-cost one-to-one assignment, "
+        "that candidate lists are exactly the in-range destinations plus the null link at search_range^2, that subnets partition sources and share no destination, that "
+        "solving subnets separately is globally optimal over previous-frame + remembered sources, Oversize iff a subnet exceeds the limit, and that the executable monitor "
+        "is sound. Correspondence: every link_strategy of trackpy.link_iter and the three subnet linkers on constructed candidate graphs are checked step by step "
+        "by the monitor (cost of the implementation's assignment = verified optimum; raise iff).",
+   note=LINK_NOTE + " The nonrecursive and numba solvers are tied to the verified optimum by the monitor on every generated case, not by their own refinement proof."),
+}
